@@ -129,6 +129,9 @@ MODEL_MUTANTS = [
     ('DlisModel.tla', 'Announced == SumLen(view)', 'Announced == Len(items)', 'DlisModel.tla', 'MC_DlisModel_quick.cfg', 'ProgressTotalCovers'),
     ('DataSource.tla', 'ChunkRows(start, stop) == [k \\in 1..(stop - start) |-> from + start + k - 1]',
      'ChunkRows(start, stop) == [k \\in 1..(stop - start) |-> (IF kind = "fast" THEN 0 ELSE from) + start + k - 1]', 'DataSource.tla', 'MC_DataSource_quick.cfg', 'InOrder'),
+    ('MC_DataSource_quick.cfg', 'CheckBounds = TRUE', 'CheckBounds = FALSE', 'DataSource.tla', 'MC_DataSource_quick.cfg', 'WindowRows'),
+    ('MC_DlisModel_mut.cfg', 'CopyRule = "firstfree"', 'CopyRule = "count"', 'DlisModel.tla', 'MC_DlisModel_mut.cfg', 'CopyNumbersDistinct'),
+    ('MC_CacheModel.cfg', 'BypassDtime = TRUE', 'BypassDtime = FALSE', 'CacheModel.tla', 'MC_CacheModel.cfg', 'HistoryIndependent'),
     ('AttrEncoder.tla', 'hasVal  == ~(stored.list /\\ stored.n = 0)', 'hasVal  == TRUE', 'AttrEncoder.tla', 'MC_AttrEncoder.cfg', 'GrammarOk'),
     ('ChannelDims.tla', 'IF dim # d /\\ dim # << >> THEN pc\' = "raised"', 'IF FALSE /\\ dim # d THEN pc\' = "raised"', 'ChannelDims.tla', 'MC_ChannelDims.cfg', 'Contradiction'),
     ('RP66Prim.tla', 'IF n < 128 THEN << n >>', 'IF n <= 128 THEN << n >>', 'PrimModel.tla', 'PrimModel_quick.cfg', 'RoundTrip'),
@@ -136,7 +139,7 @@ MODEL_MUTANTS = [
 
 
 def part_cache_switches():
-    for sw in ('Typed = TRUE/Typed = FALSE', 'BypassFloat = TRUE/BypassFloat = FALSE', 'BypassRef = TRUE/BypassRef = FALSE',
+    for sw in ('Typed = TRUE/Typed = FALSE', 'BypassFloat = TRUE/BypassFloat = FALSE', 'BypassDtime = TRUE/BypassDtime = FALSE', 'BypassRef = TRUE/BypassRef = FALSE',
                'Invalidate = TRUE/Invalidate = FALSE', 'MarkDerived = TRUE/MarkDerived = FALSE', 'KeepData = FALSE/KeepData = TRUE'):
         d = tempfile.mkdtemp(prefix='stspec', dir='/tmp')
         try:
